@@ -32,12 +32,20 @@ async def _run(prop, args, acc, ctx):
             cases = prop.cases(args.tier, args.seed, args.shard, args.nshards)
         is_async = inspect.iscoroutinefunction(prop.run_case)
         n = 0
+        import warnings
+
         for case in cases:
             acc.case = case
-            if is_async:
-                await prop.run_case(case, acc, ctx)
-            else:
-                prop.run_case(case, acc, ctx)
+            # some applications (and most test suites) turn warnings into errors; every fifth case runs that way
+            strict = prop.warnings_as_errors and (n * args.nshards + args.shard) % 5 == 3   # by position in the whole run, not per worker
+            with warnings.catch_warnings():
+                if strict:
+                    warnings.simplefilter("error")
+                    acc.count("cases_run_with_warnings_as_errors")
+                if is_async:
+                    await prop.run_case(case, acc, ctx)
+                else:
+                    prop.run_case(case, acc, ctx)
             n += 1
             if (n & 15) == 0 and time.monotonic() - t0 > budget:
                 acc.count("truncated_by_budget")
@@ -89,6 +97,12 @@ def main() -> int:
             lg.setLevel(logging.DEBUG)
             lg.addHandler(logging.NullHandler())
             lg.propagate = False
+        if args.shard % 3 == 1:
+            # the decimal context is the application's to set; a third of the workers run with another rounding mode
+            import decimal
+
+            decimal.getcontext().rounding = decimal.ROUND_DOWN
+            decimal.DefaultContext.rounding = decimal.ROUND_DOWN
         reach.start(str(env.SRC))
         ctx = {"tier": args.tier, "seed": args.seed, "shard": args.shard, "nshards": args.nshards}
         reached = asyncio.run(_run(prop, args, acc, ctx))
